@@ -1,9 +1,12 @@
+// C18 — peer connections deliver each channel's messages intact, in order, authenticated.
 package main
 
 import (
-	"encoding/hex"
 	"fmt"
-	"time"
+	"os"
+	"runtime/debug"
+
+	"verif/vk"
 
 	"github.com/lianxiangcloud/linkchain/libs/log"
 	"github.com/lianxiangcloud/linkchain/libs/p2p/conn"
@@ -12,30 +15,18 @@ import (
 func main() {
 	log.Root().SetHandler(log.DiscardHandler())
 	installDetRand()
-	v, t := conn.VerifC18FrameMode()
-	fmt.Printf("mode %x %x\n", v, t)
-	a, b, ra, rb := handshakePair(keyA, 1, keyB, 2, true)
-	fmt.Println(ra.err, rb.err)
-	for _, s := range a.out.hist {
-		fmt.Println("A:", len(s), hex.EncodeToString(s))
+	debug.SetGCPercent(400) // executions allocate and drop 32 KiB frames; trade some memory for GC time
+	r := vk.Start("C18", "model_checking")
+	if r.ReplayPath != "" {
+		vk.Fatalf("replay: the replay file names the part, configuration and deviations; re-run the check to reproduce")
 	}
-	for _, s := range b.out.hist {
-		fmt.Println("B:", len(s), hex.EncodeToString(s))
+	if v, t := conn.VerifC18FrameMode(); v != 0xF0 || t != 0x0F {
+		vk.Fatalf("compiled-in frame mode is %#x|%#x, the harness models version00|compress (the property fixes the default mode)", v, t)
 	}
-	fmt.Println(ra.sc.RemotePubKey().Equals(keyB.PubKey()), rb.sc.RemotePubKey().Equals(keyA.PubKey()))
-	t0 := time.Now()
-	for i := 0; i < 1000; i++ {
-		handshakePair(keyA, 1, keyB, 2, false)
+	only := os.Getenv("C18_ONLY")
+	if only == "" || only == "stream" {
+		phaseStream(r)
 	}
-	fmt.Println("handshake pair:", time.Since(t0)/1000)
-	for _, c := range [][2]interface{}{} {
-		_ = c
-	}
-	bz, err := conn.VerifC18EncodeAuthSig(nil, nil)
-	fmt.Println("nil/nil", hex.EncodeToString(bz), err)
-	sig, _ := keyB.Sign([]byte("x"))
-	bz, err = conn.VerifC18EncodeAuthSig(keyB.PubKey(), sig)
-	fmt.Println("B", hex.EncodeToString(bz), err)
-	bz, err = conn.VerifC18EncodeAuthSig(nil, sig)
-	fmt.Println("nil key", hex.EncodeToString(bz), err)
+	fmt.Println("done")
+	r.Finish()
 }
